@@ -264,6 +264,12 @@ fn c09_gate_mixed() {
 #[kani::proof]
 #[kani::unwind(4)]
 fn c09_null() {
+    unsafe {
+        // the refusal may be the implicit `expect` of the pinned tree or an explicit panic! (T4 hook)
+        ALLOW = bit(K_NULL);
+        JUSTIFIED = true;
+        NEED_NO_EVENTS = true;
+    }
     let f = unsafe { FuncPtr::new(std::ptr::null(), "fn()") };
     kani::cover!(true, "COVER:constructed-from-null");
     std::mem::forget(f);
